@@ -181,7 +181,12 @@ def dispatch (j : Json) : Except String Json := do
   | "dirs" => runDirs j
   | "pipe" => runPipe j
   | "sel" => runSel j
-  | "recommended" => pure (Json.arr ((DL.Sel.recommended DL.Gen.ruleTable).map (fun r => Json.str r.code)).toArray)
+  | "recommended" =>
+    -- `recommended_rules` applied to the whole registry, or (key `codes`) to the rules named, in the order given
+    let rs := match (getStrList j "codes").toOption with
+      | some codes => codes.filterMap fun c => DL.Gen.ruleTable.find? (·.code == c)
+      | none => DL.Gen.ruleTable
+    pure (Json.arr ((DL.Sel.recommended rs).map (fun r => Json.str r.code)).toArray)
   | "sortprio" => runSortPrio j
   | "cf" => runCf j
   | "rx" => DL.Rx.runRx j
